@@ -77,6 +77,11 @@ def build(d):
             vals = [(_flt(x) if str(c["dtype"]).startswith("float") else x) for x in c["v"]]
             cols[name] = pd.Series(vals, dtype=c["dtype"], index=d.get("index"))
         return pd.DataFrame(cols, index=d.get("index"))
+    if t == "framevar":
+        # more than 100 rows of strings of very different lengths: the memory cache estimates the size of such a frame from
+        # a random sample of its rows, so two estimates of the same frame differ
+        n, avg = d["rows"], d["avg"]
+        return pd.DataFrame({"s": [("x" * (1 if i % 3 else 3 * avg - 2)) for i in range(n)]})
     if t == "impart":
         from twosigma.memento.partition import InMemoryPartition
         return InMemoryPartition({k: build(x) for k, x in d["v"].items()})
